@@ -47,8 +47,8 @@ ASSUMPTIONS = [
     "Strings and ranges are not mixed in one ValueSet: under Python 3 'lo <= \"x\"' raises TypeError, and no "
     "documented use mixes them (string sets in the docs hold only values).",
     "CSV cells are exactly the documented forms ('any', 'TRUE'/'FALSE', integers, 'lo-hi', comma lists with an "
-    "optional space after the comma, truly empty cells); whitespace-only cells, duplicate keys and keys starting "
-    "with '#' are not generated.",
+    "optional space after the comma, truly empty cells); whitespace-only cells, duplicate keys, keys starting "
+    "with '#' and a ditto in the first value column (nothing to its left to repeat) are not generated.",
     "Part (b) only uses tables without catch-all (empty dict) columns, as the property states, and sequences of "
     "distinct keys (the validator asserts each level-constrained key once per sequence header).",
     "iter_values is required to yield each member once (a value *set*); the implementation maintains this by "
@@ -625,15 +625,17 @@ def csv_cases():
     num = st.one_of(st.integers(0, 40), st.integers(0, 40), st.integers(0, 5000))
     rng = st.builds(lambda lo, w: [lo, lo + w], num, st.integers(0, 30))
     item = st.one_of(num, num, rng, st.booleans())
-    cell = st.one_of(
+    ditto = st.builds(lambda ch: {"c": "ditto", "ch": ch}, st.sampled_from(DITTO_CHARS))
+    plain_cells = [
         st.just({"c": "empty"}),
         st.just({"c": "any"}),
-        st.builds(lambda ch: {"c": "ditto", "ch": ch}, st.sampled_from(DITTO_CHARS)),
-        st.builds(lambda ch: {"c": "ditto", "ch": ch}, st.sampled_from(DITTO_CHARS)),
         st.builds(lambda items, sep, q: {"c": "set", "items": items, "sep": sep, "q": q},
                   st.lists(item, min_size=1, max_size=4), st.sampled_from([",", ", "]), st.integers(0, 5).map(lambda x: x == 0)),
         st.builds(lambda items: {"c": "set", "items": items, "sep": ",", "q": False}, st.lists(item, min_size=1, max_size=1)),
-    )
+    ]
+    # a ditto needs a value column to its left: never in the first value column
+    first_cell = st.one_of(*plain_cells)
+    cell = st.one_of(*(plain_cells + [ditto, ditto]))
 
     @st.composite
     def case(draw):
@@ -652,7 +654,7 @@ def csv_cases():
             else:
                 short = draw(st.integers(0, 5)) == 0
                 n = draw(st.integers(0, width)) if short else width
-                rows.append({"t": "data", "key": names[nkey], "cells": [draw(cell) for _ in range(n)]})
+                rows.append({"t": "data", "key": names[nkey], "cells": [draw(first_cell if i == 0 else cell) for i in range(n)]})
                 nkey += 1
         eol = draw(st.sampled_from(["\n", "\n", "\r\n"]))
         final = draw(st.booleans())
@@ -837,9 +839,19 @@ def csv_labels(case, info):
 
 
 def shards(tier):
-    out = [("vs", "num", k) for k in range(7)] + [("vs", "sym", 0)]
-    out += [("table", None, k) for k in range(6)]
-    out += [("csv", None, k) for k in range(6)]
+    # exactly 16 shards: one per core, comparable cost each
+    out = [("vs", "num", k) for k in range(6)] + [("vs", "sym", 0)]
+    out += [("table", None, k) for k in range(4)]
+    out += [("csv", None, k) for k in range(5)]
+    return out
+
+
+def _chunks(total, size):
+    """Split a case budget into runs of at most ``size`` examples (keeps Hypothesis' bookkeeping small)."""
+    out = []
+    while total > 0:
+        out.append(min(size, total))
+        total -= out[-1]
     return out
 
 
@@ -862,18 +874,19 @@ def run_shard(spec, ctx):
     kind, mode, _k = spec
     if kind == "vs":
         machine = make_vs_machine(col, mode, CT, samples=(2 if _k == 0 and mode == "num" else 1 if mode == "sym" else 0))
-        run_state_machine_as_test(
-            seed(ctx.seed)(machine),
-            settings=settings(
-                max_examples=ctx.pick(450, 45000),
-                stateful_step_count=ctx.pick(25, 30),
-                deadline=None,
-                database=None,
-                phases=[Phase.generate],
-                suppress_health_check=list(HealthCheck),
-                print_blob=False,
-            ),
-        )
+        for j, n in enumerate(_chunks(ctx.pick(500, 30000), 10000)):
+            run_state_machine_as_test(
+                seed(ctx.seed + 104729 * j)(machine),
+                settings=settings(
+                    max_examples=n,
+                    stateful_step_count=ctx.pick(25, 30),
+                    deadline=None,
+                    database=None,
+                    phases=[Phase.generate],
+                    suppress_health_check=list(HealthCheck),
+                    print_blob=False,
+                ),
+            )
     elif kind == "table":
 
         def rerun_table(d, c=None):
@@ -892,7 +905,8 @@ def run_shard(spec, ctx):
                      sample=(lambda: case) if (_k == 0 and len(col.samples) < 2 and len(case["seq"]) >= 2
                                                and stats.get("reject") is None) else None)
 
-        run_given(table_cases(), body, ctx, ctx.pick(1200, 120000))
+        for j, n in enumerate(_chunks(ctx.pick(2000, 80000), 20000)):
+            run_given(table_cases(), body, ctx, n, salt=j)
     else:
         fd, path = tempfile.mkstemp(prefix="vpbt-c17-", suffix=".csv")
         os.close(fd)
@@ -913,7 +927,8 @@ def run_shard(spec, ctx):
                          sample=(lambda: {"kind": "csv", "text": case["text"]}) if (
                              _k == 0 and len(col.samples) < 3 and len(case["rows"]) >= 3) else None)
 
-            run_given(csv_cases(), body, ctx, ctx.pick(1200, 120000))
+            for j, n in enumerate(_chunks(ctx.pick(1200, 40000), 10000)):
+                run_given(csv_cases(), body, ctx, n, salt=j)
         finally:
             try:
                 os.unlink(path)
